@@ -532,7 +532,16 @@ func jsExtraCmd(g *bundleGen, s *gScope, depth int) (string, bool) {
 	if r.Intn(7) != 0 {
 		return "", false
 	}
-	switch r.Intn(8) {
+	switch r.Intn(9) {
+	case 8:
+		// placeholder names that collide (X, X, X_1 …): the naming pass ranges over Go maps
+		if ms := s.ofType(tMap); len(ms) > 0 && g.opts.msgs {
+			m := ms[r.Intn(len(ms))]
+			s.used[m] = true
+			n := s.vars[m].name
+			g.stat("msg-colliding-placeholders")
+			return "{msg desc=\"collide\"}{$" + n + ".x}{$" + n + ".y.x}{$" + n + ".x_1}{$" + n + ".x}<b>{$" + n + ".z.x_1}</b><b class=\"c\">{$" + n + ".x_2}</b>{/msg}", true
+		}
 	case 0:
 		g.stat("debugger")
 		return "{debugger}", true
